@@ -334,7 +334,7 @@ class SemantivaOrchestrator(ABC):
                         )
                         trace_driver.on_node_event(ser)
 
-                except Exception as exc:
+                except BaseException as exc:
                     if trace_driver is not None:
                         post_ctx_view = self._context_snapshot(context)
                         context_delta = self._ensure_context_delta(
@@ -398,7 +398,7 @@ class SemantivaOrchestrator(ABC):
 
             if trace_driver is not None:
                 trace_driver.on_pipeline_end(run_token, {"status": "ok"})
-        except Exception as exc:
+        except BaseException as exc:
             if trace_driver is not None:
                 trace_driver.on_pipeline_end(
                     run_token, {"status": "error", "error": str(exc)}
